@@ -127,6 +127,30 @@ OPT_TABLE = {
     "tros::a": ["-", "-", "sc=6,ss=1,th=1.2.", "-"],
     "tros::b": ["-", "-", "sc=6,ss=1,th=1.2.", "-"],
     "tros::c": ["-", "-", "sc=6,ss=1,th=1.2.", "th=1."],
+    "pa": ["-", "-", "sc=1,ss=1"],
+    "pa::a": ["-", "-", "sc=3,ss=2", "-"],
+    "pa::b": ["-", "-", "sc=3,ss=2", "-"],
+    "pa::c": ["-", "-", "sc=3,ss=2", "-"],
+    "pb": ["-", "-", "sc=1,ss=1"],
+    "pb::a": ["-", "-", "sc=4,ss=2", "-"],
+    "pb::b": ["-", "-", "sc=4,ss=2", "-"],
+    "pb::c": ["-", "-", "sc=4,ss=2", "-"],
+    "pc": ["-", "-", "sc=1,ss=1"],
+    "pc::a": ["-", "-", "sc=5,ss=2", "-"],
+    "pc::b": ["-", "-", "sc=5,ss=2", "-"],
+    "pc::c": ["-", "-", "sc=5,ss=2", "-"],
+    "pd": ["-", "-", "sc=1,ss=1"],
+    "pd::a": ["-", "-", "sc=6,ss=2", "-"],
+    "pd::b": ["-", "-", "sc=6,ss=2", "-"],
+    "pd::c": ["-", "-", "sc=6,ss=2", "-"],
+    "pe": ["-", "-", "sc=1,ss=1"],
+    "pe::a": ["-", "-", "sc=7,ss=2", "-"],
+    "pe::b": ["-", "-", "sc=7,ss=2", "-"],
+    "pe::c": ["-", "-", "sc=7,ss=2", "-"],
+    "pf": ["-", "-", "sc=1,ss=1"],
+    "pf::a": ["-", "-", "sc=8,ss=2", "-"],
+    "pf::b": ["-", "-", "sc=8,ss=2", "-"],
+    "pf::c": ["-", "-", "sc=8,ss=2", "-"],
     "g1::inherit": ["-", "-", G1, "-"],
     "g1::size5": ["-", "-", G1, "ss=5"],
     "g1::g2::inherit": ["-", "-", G1, G2, "-"],
@@ -267,8 +291,27 @@ class OptContext:
     """Available parallelism as std reports it to a fresh harness process under the same CPU confinement as the
     benchmark binary (not read off the binary's own output: that is the thing under test)."""
 
-    def __init__(self):
+    def __init__(self, hist=None):
         self.par = {}
+        self.hist = hist
+        self.order_done = False
+
+    def registration_order(self, hbin):
+        """How many of the function + same-named module pairs have the function's leaf registered ahead of every
+        benchmark of the module in THIS build (link order; observable through BENCH_ENTRIES)."""
+        if self.order_done or self.hist is None:
+            return
+        self.order_done = True
+        rc, out, err = E.run(hbin, [], {"HX_DUMP_ORDER": "1"})
+        order = out.splitlines()
+        pairs = ["sort", "tros", "pa", "pb", "pc", "pd", "pe", "pf"]
+        first = 0
+        for n in pairs:
+            leaf = "hx_select_e2e::opt::" + n
+            inner = [i for i, l in enumerate(order) if l.startswith(leaf + "::")]
+            if leaf in order and inner and order.index(leaf) < min(inner):
+                first += 1
+        self.hist[f"same-named-pairs-with-fn-leaf-registered-first:{first}-of-{len(pairs)}"] = 1
 
     def probe(self, hbin, ncpus=None):
         if ncpus not in self.par:
@@ -283,6 +326,7 @@ def affinity_of(case):
 def opt_impl_runner(ctx):
     def runner(st, hbin):
         lines = []
+        ctx.registration_order(hbin)
         for case in st.cases:
             ncpus = affinity_of(case)
             par = ctx.probe(hbin, ncpus)
@@ -608,6 +652,61 @@ def ropt_impl_runner(st, hbin):
     return lines
 
 
+# ---------------------------------------------------------------------------
+# tree building with a controlled registration order (hook tree_dump) + options resolved along the built tree
+# ---------------------------------------------------------------------------
+import itertools
+
+TB_NAMES = ["sort", "io", "a", "b", "r#type", "util", "x"]
+
+
+def tb_fixed():
+    """A function `sort` placed before / between / after the benchmarks a, b, c of a module `sort` whose group sets
+    distinctive options: all 24 registration orders, and both group orders for a doubly registered group."""
+    out = []
+    items = [("m", "sort", "sc=1"), ("m::sort", "a", "-"), ("m::sort", "b", "ss=3"), ("m::sort", "c", "-")]
+    for n, perm in enumerate(itertools.permutations(range(4))):
+        ents = [f"b/{items[i][0]}/{items[i][1]}/L{i}/{items[i][2]}" for i in perm]
+        ents.append("g/m/sort/G0/sc=5,ss=2,th=1.2.,ig=1")
+        if n % 3 == 0:
+            ents.append("g/m::sort/sort/G1/sc=9")           # a group below the module that names nothing
+        if n % 4 == 1:
+            ents.insert(len(ents) - 1, "g/m/r#sort/G2/mx=7")  # registered twice (once spelt r#sort): the later one holds the slot
+        out.append(f"p{n} #E " + " ".join(ents) + (" #R ss=7" if n % 2 else ""))
+    return out
+
+
+def gen_tb(rng, k):
+    nb = rng.randrange(1, 9)
+    ents, mods = [], set()
+    for i in range(nb):
+        depth = rng.choice([1, 1, 2, 2, 3])
+        path = ["m"] + [rng.choice(TB_NAMES) for _ in range(depth - 1)]
+        for d in range(1, len(path) + 1):
+            mods.add(tuple(path[:d]))
+        opts = rand_level(rng, 0.2) or "-"
+        ents.append(f"b/{'::'.join(path)}/{rng.choice(TB_NAMES)}/L{i}/{opts if rng.random() < 0.6 else '-'}")
+    mods = sorted(mods)
+    ng = rng.randrange(0, 6)
+    for g in range(ng):
+        r = rng.random()
+        if r < 0.7 and mods:
+            m = list(rng.choice(mods))
+            parent, raw = m[:-1], m[-1]
+            if not parent:
+                parent, raw = ["m"], rng.choice(TB_NAMES)
+            if rng.random() < 0.25:     # the group spells the raw identifier differently from module_path!()
+                raw = raw[2:] if raw.startswith("r#") else "r#" + raw
+        else:   # a group whose module chain may not exist (or exists only partly)
+            parent = ["m"] + [rng.choice(TB_NAMES + ["platform", "linux"]) for _ in range(rng.choice([0, 1, 2]))]
+            raw = rng.choice(TB_NAMES)
+        ents.append(f"g/{'::'.join(parent)}/{raw}/G{g}/{rand_level(rng, 0.35) or 'sc=4'}")
+    line = f"t{k} #E " + " ".join(ents)
+    if rng.random() < 0.4:
+        line += " #R " + (rand_level(rng, 0.2) or "ss=7")
+    return line
+
+
 def streams(tier, rng):
     n = 2500 if tier == "quick" else 60000
     ov, ov_hist = corpus_lines("C15-ovw"), {}
@@ -623,6 +722,7 @@ def streams(tier, rng):
     # the parallelism used for generating thread lists only makes "0 and P both present" likely; the model gets the probed value
     par_guess = len(os.sched_getaffinity(0)) if hasattr(os, "sched_getaffinity") else 1
     op, op_hist = corpus_lines("C15-opt"), {}
+    ctx.hist = op_hist
     for k in range(ne):
         c, nset = gen_opt(rng, k, par_guess)
         op.append(c)
@@ -639,6 +739,8 @@ def streams(tier, rng):
     ps = corpus_lines("C15-psec") + PSEC_FIXED + [gen_psec(rng, k) for k in range(1500 if tier == "quick" else 60000)]
     ro = corpus_lines("C15-ropt") + ROPT_FIXED + [gen_ropt(rng, k) for k in range(150 if tier == "quick" else 4000)]
 
+    tb = corpus_lines("C15-tb") + tb_fixed() + [gen_tb(rng, k) for k in range(1500 if tier == "quick" else 40000)]
+
     def nt_into(c, m):
         xs = c.split()[1:]
         return c.startswith("v") and (len(set(xs)) < len(xs) or xs != sorted(xs, key=int))
@@ -646,6 +748,10 @@ def streams(tier, rng):
     return [
         Stream("overwrite-chains", "ovw", ov, nontrivial=ovw_conflict, hist=ov_hist),
         Stream("into-threads", "into", it, nontrivial=nt_into),
+        Stream("tree-build-options", "tb", tb, nontrivial=lambda c, m: "/G/" in m,
+               describe="hand-built BenchEntry/GroupEntry values handed to the crate's tree construction (hook tree_dump) in a controlled "
+                        "registration order (functions named like sibling modules, before/between/after the module's benchmarks; groups "
+                        "registered twice, orphan groups); the built tree and the options every benchmark resolves to along it"),
         Stream("parse-seconds", "psec", ps, nontrivial=lambda c, m: m.startswith("ok ") and not m.endswith(" 0"),
                describe="ParsedSeconds::from_str (hook parse_seconds) on decimals with up to 9 fractional digits and on malformed text"),
         Stream("runner-options-fresh-process", "ropt", ro, nontrivial=lambda c, m: any(spec_of(c, w) for w in "FEPQ"),
